@@ -294,8 +294,40 @@ const (
 )
 
 // atomOf normalises a branch literal.
+var atomParamDepth int
+
 func atomOf(cond ssa.Value, val bool) Atom {
 	switch x := cond.(type) {
+	case *ssa.Parameter:
+		// a boolean parameter of a helper stands for the argument it receives, when every call site passes the same fact
+		if g := x.Parent(); g != nil && isHelper(g) && atomParamDepth < 3 {
+			idx := -1
+			for i, pr := range g.Params {
+				if pr == x {
+					idx = i
+				}
+			}
+			var got *Atom
+			same := idx >= 0
+			for _, cs := range callSitesOf(g) {
+				if idx < 0 || idx >= len(cs.Common().Args) {
+					same = false
+					break
+				}
+				atomParamDepth++
+				a := atomOf(cs.Common().Args[idx], val)
+				atomParamDepth--
+				a.V = nil
+				if got == nil {
+					got = &a
+				} else if got.String() != a.String() {
+					same = false
+				}
+			}
+			if same && got != nil && (got.Kind == "flag" || got.Kind == "legacy" || (got.Kind == "call" && strings.HasSuffix(got.Name, "isNotConcurrent"))) {
+				return *got
+			}
+		}
 	case *ssa.UnOp:
 		if x.Op == token.NOT {
 			return atomOf(x.X, !val)
